@@ -19,7 +19,11 @@ EXPLANATION = (
     "update_recursively/update_nested perform no destructive operation on d; (d) update_nested stores the old "
     "d[key] into other's chain before overwriting it; (e) update_recursively overwrites an existing key with a "
     "dictionary value only by recursing; (f) the depth counter of intersection/difference is never rebound inside a loop and "
-    "every recursive call passes exactly level - 1.  Does not decide the algebraic laws themselves (relations between values).")
+    "every recursive call passes exactly level - 1; (h) difference hands back its first argument itself only where that "
+    "argument is known not to be contained in the second (a non-dictionary operand, or d1 != d2 on the path): the "
+    "equality exit comes before the depth exit; (i) str_to_dict, through which update_recursively takes the string form of "
+    "other, treats the explicit value as opaque: once the value has joined the list of keys nothing filters, rebinds or "
+    "tests the elements of that list.  Does not decide the algebraic laws themselves (relations between values).")
 RULES = {
     "C07-a": "TRUTHY: no branch on the bare truthiness of a value that may be a leaf; presence is tested with `in`",
     "C07-b": "FRESH: intersection returns a deep copy; only recursive results are stored into it",
@@ -28,6 +32,10 @@ RULES = {
     "C07-e": "merge, not overwrite: update_recursively replaces an existing dictionary item only by recursion",
     "C07-f": "DEPTH: the level of intersection/difference is the same for every argument and key of one call (never rebound "
              "in a loop) and every recursive call passes exactly level - 1",
+    "C07-h": "CONTAINED FIRST: difference returns d1 itself only on paths where d1 is known not to be contained in d2 "
+             "(equal arguments give {} at every level, also level=0)",
+    "C07-i": "OPAQUE VALUE: in str_to_dict no key rule (filter, comparison, truth test) is applied to the list once the explicit "
+             "value is in it: a value '' / 0 / None is stored as given",
     "C07-g": "NO HIDDEN STATE: the shared helper modules keep no module-level mutable container that a function reads or fills "
              "(a memo hands the same dictionary to several callers, whose in-place updates then meet)",
 }
@@ -392,8 +400,122 @@ def check_no_hidden_state(ctx):
     ctx.instances_floor("C07-g", n_mod, 6, "shared helper modules")
 
 
+def _nondict_or_unequal(t, pol, a, b):
+    """Does the literal (t, pol) establish that a is not contained in b: one of them is not a dictionary, or a != b?"""
+    if isinstance(t, ast.BoolOp) and isinstance(t.op, ast.Or) and pol:
+        return all(_nondict_or_unequal(*x, a, b) for v in t.values for x in [A.strip_not(v)])
+    if isinstance(t, ast.Call) and A.call_name(t) == "isinstance" and len(t.args) == 2 and A.src(t.args[1]) == "dict" \
+            and A.src(t.args[0]) in (a, b):
+        return pol is False
+    if isinstance(t, ast.Compare) and len(t.ops) == 1 and {A.src(t.left), A.src(t.comparators[0])} == {a, b}:
+        if isinstance(t.ops[0], ast.Eq):
+            return pol is False
+        if isinstance(t.ops[0], ast.NotEq):
+            return pol is True
+    return False
+
+
+def check_contained_first(ctx):
+    fn = ctx.tree.func(FN, "difference")
+    params = A.func_params(fn)
+    if not ctx.require(len(params) >= 2, "C07-h", fn, "difference: two positional parameters expected"):
+        return
+    a, b = params[0], params[1]
+    n = 0
+    for p in P.paths_of(fn):
+        if p.end != "return":
+            continue
+        ret = [e[1] for e in p.ev if e[0] == "stmt" and isinstance(e[1], ast.Return)]
+        if not ret or not (isinstance(ret[-1].value, ast.Name) and ret[-1].value.id == a):
+            continue
+        # a rebinding of the parameter makes the name something else
+        if any(e[0] == "stmt" and a in [x for t in A.assigned_targets(e[1]) for x in A.target_names(t)] for e in p.ev):
+            continue
+        n += 1
+        ok = any(_nondict_or_unequal(t, pol, a, b) for t, pol in p.literals())
+        ctx.check("C07-h", ok, ret[-1], "difference returns %s itself on the path [%s], where nothing has established that %s is not "
+                  "contained in %s: for equal arguments (difference(d, d, level=0)) every item of the result is contained in %s, "
+                  "although the difference must be empty; the test %s == %s has to come before the depth exit"
+                  % (a, p.describe(4), a, b, b, a, b), detail="`return %s` only after a non-dict or an inequality test [%s]" % (a, p.describe(3)),
+                  construct="returns-d1-unchecked", path=p)
+    ctx.instances_floor("C07-h", n, 2, "paths of difference returning its first argument")
+
+
+def check_opaque_value(ctx):
+    fn = ctx.tree.func(FN, "str_to_dict")
+    params = A.func_params(fn)
+    if not ctx.require(len(params) == 2, "C07-i", fn, "str_to_dict(s, value) expected"):
+        return
+    val = params[1]
+    # the statement(s) where the value joins a list
+    joins = []
+    for st in A.walk_local(fn):
+        if isinstance(st, ast.Expr) and isinstance(st.value, ast.Call) and isinstance(st.value.func, ast.Attribute) \
+                and st.value.func.attr in ("append", "extend", "insert") and isinstance(st.value.func.value, ast.Name) \
+                and val in A.names_loaded(st.value):
+            joins.append((st, st.value.func.value.id))
+        elif isinstance(st, (ast.Assign, ast.AugAssign)) and val in A.names_loaded(st.value) and not isinstance(st.value, ast.Compare):
+            for t in A.assigned_targets(st):
+                if isinstance(t, ast.Name):
+                    joins.append((st, t.id))
+    if not ctx.require(len(joins) == 1, "C07-i", fn, "str_to_dict: the place where the value joins the keys was not identified (%d)" % len(joins)):
+        return
+    jst, lst = joins[0]
+    inner = {f.name: f for f in A.walk_local(fn, include_self=False) if isinstance(f, ast.FunctionDef)}
+    n = 0
+    for p in P.paths_of(fn):
+        idx = [i for i, e in enumerate(p.ev) if e[0] == "stmt" and e[1] is jst]
+        if not idx:
+            continue
+        n += 1
+        for e in p.ev[idx[0] + 1:]:
+            node = e[1] if e[0] in ("stmt", "cond", "iter") else None
+            if node is None or isinstance(node, (ast.FunctionDef, ast.ClassDef)):
+                continue
+            bad = None
+            if e[0] == "stmt" and lst in [x for t in A.assigned_targets(node) for x in A.target_names(t)]:
+                bad = "rebinds `%s`" % lst
+            for c in A.walk_local(node):
+                if isinstance(c, ast.Call) and isinstance(c.func, ast.Attribute) and A.src(c.func.value) == lst \
+                        and c.func.attr in ("remove", "pop", "clear", "sort", "reverse"):
+                    bad = "calls %s.%s()" % (lst, c.func.attr)
+                if isinstance(c, ast.Delete) and any(A.root_name(t) == lst for t in c.targets):
+                    bad = "deletes from `%s`" % lst
+                if isinstance(c, (ast.ListComp, ast.GeneratorExp, ast.SetComp)) and any(lst in A.names_loaded(g.iter) for g in c.generators):
+                    bad = "rebuilds `%s` element by element" % lst
+                if isinstance(c, ast.Call) and A.call_name(c) in ("filter", "map") and any(lst in A.names_loaded(a) for a in c.args):
+                    bad = "passes `%s` through %s()" % (lst, A.call_name(c))
+            if e[0] == "cond":
+                for c in ast.walk(node):
+                    if isinstance(c, ast.Subscript) and A.root_name(c) == lst:
+                        bad = "tests an element of `%s`" % lst
+            if bad:
+                ctx.violation("C07-i", node, "str_to_dict %s (`%s`) after the explicit value has joined it: a rule meant for the keys is "
+                              "applied to the value, so update_recursively(d, 'a.b', '') (or 0, None, a dictionary ...) no longer makes "
+                              "{'a': {'b': value}} contained in d" % (bad, A.short(node, 60)), construct="value-filtered", path=p)
+    ctx.instances_floor("C07-i", n, 1, "paths of str_to_dict on which the value joins the keys")
+    # the nested helper decides by the length of the list only
+    n_c = 0
+    for g in inner.values():
+        gp = A.func_params(g)
+        for c in A.walk_local(g, include_self=False):
+            tests = []
+            if isinstance(c, (ast.If, ast.While, ast.IfExp)):
+                tests = [c.test]
+            for t in tests:
+                n_c += 1
+                subs = [s for s in ast.walk(t) if isinstance(s, ast.Subscript) and A.root_name(s) in gp]
+                ctx.check("C07-i", not subs, t, "%s, which nests the list of keys and the value, decides by the content of an element (`%s`): "
+                          "the last element is the caller's value and must be stored whatever it is" % (g.name, A.short(t, 50)),
+                          detail="%s branches on the length of the list only (`%s`)" % (g.name, A.short(t, 40)), construct="helper-tests-element")
+    ctx.instances_floor("C07-i/helper", n_c, 1, "branches of the nesting helper")
+    ctx.ok("C07-i", fn, "nothing filters, rebinds or tests the key list once the value is in it")
+
+
 def check(ctx):
     check_no_hidden_state(ctx)
+    check_contained_first(ctx)
+    check_opaque_value(ctx)
     check_truthy(ctx)
     check_depth(ctx)
     check_fresh(ctx)
@@ -422,6 +544,13 @@ VARIANTS = [
     M("update-nested-loses-old", "lena/context/functions.py", "        other_most_nested[key] = d[key]\n", "        pass\n", ["C07-d"]),
     M("difference-get-none", "lena/context/functions.py", "        if key not in d2:\n            result[key] = d1[key]",
       "        if d2.get(key) is None:\n            result[key] = d1[key]", ["C07-a"]),
+    M("difference-depth-exit-first", "lena/context/functions.py", "    if d1 == d2:\n        return {}\n    elif level == 0:\n        return d1",
+      "    if level == 0:\n        return d1\n    elif d1 == d2:\n        return {}", ["C07-h"]),
+    M("str-to-dict-filters-after-value", "lena/context/functions.py", "        parts.append(value)\n", "        parts.append(value)\n    parts = [part for part in parts if part != \"\"]\n", ["C07-i"]),
+    M("str-to-dict-helper-skips-falsy", "lena/context/functions.py", "        if len_l == 2:\n            d.update([(l[0], l[1])])", "        if len_l == 2 and l[1]:\n            d.update([(l[0], l[1])])", ["C07-i"]),
+    TW("difference-unequal-spelled", "lena/context/functions.py", "    if d1 == d2:\n        return {}\n    elif level == 0:\n        return d1",
+       "    if not d1 != d2:\n        return {}\n    if level == 0:\n        return d1"),
+    TW("str-to-dict-filters-before-value", "lena/context/functions.py", "    parts = s.split(\".\")\n", "    parts = [x for x in s.split(\".\")]\n"),
     TW("difference-renamed-local", "lena/context/functions.py", "                res = difference(d1[key], d2[key], level-1)\n                # if d2[key] contains all d1[key] elements,\n                # the difference will be empty\n                if res:\n                    result[key] = res",
        "                sub = difference(d1[key], d2[key], level-1)\n                if sub:\n                    result[key] = sub"),
 ]
